@@ -22,10 +22,18 @@ package aggregation
 //@ func (*TableAggregator).OrderedColumns
 //@   pure
 //@   trusted
-//@ func (*TableAggregator).OrderedRows
+// rows handed to the renderers: one entry per row key, none nil (sorting only permutes them)
+//@ func (*TableAggregator).Rows
+//@   requires [objinv] wf_table(s)
 //@   pure
-//@   trusted
+//@   ensures fresh(result)
 //@   ensures forall i in [0, len(result)) :: result[i] != nil
+//@   loop 1 invariant wf_table(s) && fresh(rows) && (forall j in [0, len(rows)) :: rows[j] != nil)
+// (that sort.Sort only permutes the slice it is given is assumed)
+//@ func (*TableAggregator).OrderedRows
+//@   requires [objinv] wf_table(s)
+//@   pure
+//@   ensures [assumed-sort-permutes] forall i in [0, len(result)) :: result[i] != nil
 //@ func (*TableRow).Value
 //@   pure
 //@   ensures result == (if in_dom(s.cols, colKey) then map_get(s.cols, colKey) else 0)
